@@ -897,30 +897,30 @@ def _nt_piv_random(case):
 def buckets(tier):
     q = lambda a, b: {'quick': a, 'thorough': b}
     bl = [
-        Bucket('base_and_dirs2utpm-utpm2base_and_dirs', b2u_cases, prop_b2u_u2b, q(250, 2500), nontrivial=_nt_b2u, classes=_cl_b2u,
+        Bucket('base_and_dirs2utpm-utpm2base_and_dirs', b2u_cases, prop_b2u_u2b, q(250, 5000), nontrivial=_nt_b2u, classes=_cl_b2u,
                shards=q(1, 2)),
-        Bucket('utpm2base_and_dirs-base_and_dirs2utpm', u2b_cases, prop_u2b_b2u, q(250, 2500), nontrivial=_nt_data, classes=_cl_data,
+        Bucket('utpm2base_and_dirs-base_and_dirs2utpm', u2b_cases, prop_u2b_b2u, q(250, 5000), nontrivial=_nt_data, classes=_cl_data,
                shards=q(1, 2)),
-        Bucket('utpm2dirs', utpm2dirs_cases, prop_utpm2dirs, q(250, 2500), nontrivial=_nt_data, classes=_cl_data, shards=q(1, 2)),
-        Bucket('symvec-vecsym:ndarray', lambda: symvec_cases('ndarray'), prop_symvec, q(300, 2500), nontrivial=_nt_sym, classes=_cl_sym),
-        Bucket('symvec-vecsym:utpm', lambda: symvec_cases('utpm'), prop_symvec, q(150, 1000), nontrivial=_nt_sym, classes=_cl_sym,
+        Bucket('utpm2dirs', utpm2dirs_cases, prop_utpm2dirs, q(250, 5000), nontrivial=_nt_data, classes=_cl_data, shards=q(1, 2)),
+        Bucket('symvec-vecsym:ndarray', lambda: symvec_cases('ndarray'), prop_symvec, q(300, 5000), nontrivial=_nt_sym, classes=_cl_sym),
+        Bucket('symvec-vecsym:utpm', lambda: symvec_cases('utpm'), prop_symvec, q(150, 2000), nontrivial=_nt_sym, classes=_cl_sym,
                shards=q(1, 3), weight=4.0),
-        Bucket('vecsym-symvec:ndarray', lambda: vecsym_cases('ndarray'), prop_vecsym, q(300, 2500), nontrivial=_nt_sym, classes=_cl_sym),
-        Bucket('vecsym-symvec:utpm', lambda: vecsym_cases('utpm'), prop_vecsym, q(150, 1000), nontrivial=_nt_sym, classes=_cl_sym,
+        Bucket('vecsym-symvec:ndarray', lambda: vecsym_cases('ndarray'), prop_vecsym, q(300, 5000), nontrivial=_nt_sym, classes=_cl_sym),
+        Bucket('vecsym-symvec:utpm', lambda: vecsym_cases('utpm'), prop_vecsym, q(150, 2000), nontrivial=_nt_sym, classes=_cl_sym,
                shards=q(1, 3), weight=4.0),
-        Bucket('as_utpm', lambda: container_cases('as_utpm'), prop_as_utpm, q(200, 1200), nontrivial=_nt_cont, classes=_cl_cont,
+        Bucket('as_utpm', lambda: container_cases('as_utpm'), prop_as_utpm, q(200, 2500), nontrivial=_nt_cont, classes=_cl_cont,
                shards=q(1, 3), weight=3.0),
-        Bucket('ndarray2utpm', lambda: container_cases('ndarray2utpm'), prop_ndarray2utpm, q(200, 1200), nontrivial=_nt_cont,
+        Bucket('ndarray2utpm', lambda: container_cases('ndarray2utpm'), prop_ndarray2utpm, q(200, 2500), nontrivial=_nt_cont,
                classes=_cl_cont, shards=q(1, 3), weight=3.0),
-        Bucket('shift', shift_cases, prop_shift, q(400, 3000), nontrivial=_nt_shift, classes=_cl_shift, shards=q(1, 2)),
-        Bucket('coeff_op', coeff_op_cases, prop_coeff_op, q(250, 2500), nontrivial=_nt_coeff, classes=_cl_coeff, shards=q(1, 2)),
-        Bucket('combine_blocks', combine_cases, prop_combine, q(200, 1500), nontrivial=_nt_combine, classes=_cl_combine, shards=q(1, 2)),
-        Bucket('pivots-random', piv_random_cases, prop_piv_random, q(300, 3000), nontrivial=_nt_piv_random,
+        Bucket('shift', shift_cases, prop_shift, q(400, 8000), nontrivial=_nt_shift, classes=_cl_shift, shards=q(1, 2)),
+        Bucket('coeff_op', coeff_op_cases, prop_coeff_op, q(250, 5000), nontrivial=_nt_coeff, classes=_cl_coeff, shards=q(1, 2)),
+        Bucket('combine_blocks', combine_cases, prop_combine, q(200, 3000), nontrivial=_nt_combine, classes=_cl_combine, shards=q(1, 2)),
+        Bucket('pivots-random', piv_random_cases, prop_piv_random, q(300, 5000), nontrivial=_nt_piv_random,
                classes=lambda c: ['N=%d' % len(c['piv'])]),
-        Bucket('pivots-utpm', piv_utpm_cases, prop_piv_utpm, q(200, 2000),
+        Bucket('pivots-utpm', piv_utpm_cases, prop_piv_utpm, q(200, 4000),
                nontrivial=lambda c: len(c['pivs'][0]) >= 3 and any(p != i for pv in c['pivs'] for i, p in enumerate(pv)),
                classes=lambda c: ['N=%d' % len(c['pivs'][0]), 'P=%d' % len(c['pivs'])]),
-        Bucket('pivots-lu_factor', lambda: piv_lu_cases(tier), prop_piv_lu, q(300, 2500), nontrivial=_nt_piv_lu, classes=_cl_piv_lu,
+        Bucket('pivots-lu_factor', lambda: piv_lu_cases(tier), prop_piv_lu, q(300, 5000), nontrivial=_nt_piv_lu, classes=_cl_piv_lu,
                shards=q(1, 4), weight=3.0),
     ]
     for N in range(1, PIV_NMAX + 1):
